@@ -43,7 +43,19 @@ def run(ctx: Ctx, extended: bool = False) -> None:
 
     rng = np.random.default_rng(ctx.seed)
     limits_quick = [1, 2, 3, 7]
-    for e in catalog.entries("thorough"):
+    def _extra():
+        # configurations examined by C11 only: the time limit and another constructor argument that merely SIZES a buffer are independent
+        # (MMST: generator.max_step below / above time_limit) — the limit that counts is time_limit
+        import jumanji.environments as E
+        from jumanji.environments.routing.mmst.generator import SplitRandomGenerator as MMGen
+
+        def mm(ms):
+            return lambda time_limit=6, **k: E.MMST(generator=MMGen(num_nodes=12, num_edges=18, max_degree=5, num_agents=2, num_nodes_per_agent=3, max_step=ms),
+                                                    time_limit=time_limit, **k)
+        return [catalog.Entry("mmst-maxstep4", "MMST", mm(4), {"time_limit": 6, "multi": True}),
+                catalog.Entry("mmst-maxstep20", "MMST", mm(20), {"time_limit": 6, "multi": True})]
+
+    for e in catalog.entries("thorough") + _extra():
         if "time_limit" not in e.meta:
             continue
         if ctx.quick and not extended and e.meta.get("heavy"):
@@ -59,9 +71,14 @@ def run(ctx: Ctx, extended: bool = False) -> None:
         if ctx.quick and not extended:
             # rotate: the smallest three always, the others alternate with the seed
             limits = [l for i, l in enumerate(limits) if l in (1, 2, 3) or (i + ctx.seed) % 2 == 0]
-        for tl in limits:
+        # the limit may arrive as a NumPy integer (a value taken from np.arange / a config array): same meaning as the Python int
+        typed = [np.int64(3)] if (sum(map(ord, e.cid)) + ctx.seed) % 2 == 0 or not ctx.quick else [np.int32(2)]
+        for tl in limits + typed:
             env = e.build(time_limit=tl)
-            want = tl if tl is not None else e.meta.get("default_limit")
+            want = int(tl) if tl is not None else e.meta.get("default_limit")
+            if tl is not None and not isinstance(tl, int):
+                ctx.count("limit_given_as_" + type(tl).__name__)
+                tl = int(tl)   # for the records below (the environment was built with the NumPy value)
             if getattr(env, "time_limit", None) != want:
                 ctx.fail(e.cid, "time_limit_attr", f"constructed with time_limit={tl} but env.time_limit == {getattr(env, 'time_limit', None)} (expected {want})",
                          {"env": e.cid, "time_limit": tl}, {"cls": e.cls})
